@@ -110,16 +110,29 @@ Proof.
     apply Hsym. rewrite Forall_forall in Ha. apply Ha. apply find_some in Hb. apply Hb.
 Qed.
 
+Lemma is_user_at_spec p old b :
+  is_user_at p old b = true ->
+  b_node b = false /\ b_loc b = p /\ old <= b_size b /\ (b_size b = old \/ 0 < old).
+Proof.
+  unfold is_user_at. intros Hf.
+  apply andb_true_iff in Hf. destruct Hf as [Hf Hs]. apply andb_true_iff in Hf. destruct Hf as [Hn Hl].
+  split; [now destruct (b_node b)|].
+  unfold loc_eqb in Hl. apply andb_true_iff in Hl. destruct Hl as [H1 H2].
+  apply Nat.eqb_eq in H1. apply N.eqb_eq in H2.
+  split; [destruct (b_loc b), p; simpl in *; congruence|].
+  apply orb_true_iff in Hs. destruct Hs as [Hs|Hs].
+  - apply N.eqb_eq in Hs. split; [lia|left; assumption].
+  - apply andb_true_iff in Hs. destruct Hs as [H3 H4]. apply N.ltb_lt in H3. apply N.ltb_lt in H4.
+    split; [lia|right; assumption].
+Qed.
+
+(* the block a realloc names: a live user block at p of at least [old] bytes *)
 Lemma find_is_user p old blocks b :
   find (is_user_at p old) blocks = Some b ->
-  In b blocks /\ b_node b = false /\ b_loc b = p /\ b_size b = old.
+  In b blocks /\ b_node b = false /\ b_loc b = p /\ old <= b_size b.
 Proof.
-  intros H. apply find_some in H. destruct H as [Hin Hf]. unfold is_user_at in Hf.
-  apply andb_true_iff in Hf. destruct Hf as [Hf Hs]. apply andb_true_iff in Hf. destruct Hf as [Hn Hl].
-  split; [assumption|]. split; [now destruct (b_node b)|].
-  unfold loc_eqb in Hl. apply andb_true_iff in Hl. destruct Hl as [H1 H2].
-  apply Nat.eqb_eq in H1. apply N.eqb_eq in H2. apply N.eqb_eq in Hs.
-  split; [|assumption]. destruct (b_loc b), p. simpl in *. congruence.
+  intros H. apply find_some in H. destruct H as [Hin Hf].
+  destruct (is_user_at_spec _ _ _ Hf) as (H1 & H2 & H3 & _). auto.
 Qed.
 
 (* ---- extension of the frame list -------------------------------------------- *)
@@ -849,13 +862,14 @@ Lemma inv_shrink st g p old b new lvl :
                 (g_scopes g) (g_freed g)).
 Proof.
   intros I Hfind Hnew Hlvl. pose proof I as [G _ _].
-  destruct (find_is_user _ _ _ _ Hfind) as (Hb & Hn & Hl & Hs). subst p old.
-  assert (I' : inv c st (mkG (remove_first (is_user_at (b_loc b) (b_size b)) (g_blocks g)) (g_scopes g) (g_freed g))).
+  destruct (find_is_user _ _ _ _ Hfind) as (Hb & Hn & Hl & Hs). subst p.
+  assert (Hnew' : new <= b_size b) by lia.
+  assert (I' : inv c st (mkG (remove_first (is_user_at (b_loc b) old) (g_blocks g)) (g_scopes g) (g_freed g))).
   { apply inv_remove; [assumption|assumption|]. intros x Hx. unfold is_user_at in Hx.
     destruct (b_node x); [discriminate|reflexivity]. }
   destruct G as [Glen Grefs Gids Gfr Gne Gmarks Gsort Gblks Glvl Gst Gbel].
   rewrite Forall_forall in Gblks, Glvl.
-  apply inv_add with (g := mkG (remove_first (is_user_at (b_loc b) (b_size b)) (g_blocks g)) (g_scopes g) (g_freed g))
+  apply inv_add with (g := mkG (remove_first (is_user_at (b_loc b) old) (g_blocks g)) (g_scopes g) (g_freed g))
                      (nb := mkB (b_loc b) new lvl false); [exact Hwf|exact I'|..]; simpl; unfold depth; simpl.
   - destruct (Gblks _ Hb) as (fr & B1 & B2 & B3 & B4 & B5). exists fr.
     unfold b_fi, b_off, b_end in *; simpl.
@@ -891,7 +905,8 @@ Lemma inv_grow st g p old b new fr rest x fr' :
   inv c (mkState a' (st_scs st) (st_ncl st))
         (mkG (mkB p new (depth g) false :: remove_first (is_user_at p old) (g_blocks g))
              (g_scopes g) (g_freed g)) /\
-  (forall y, In y (g_blocks g) -> agree (a_mem (st_a st)) (a_mem a') y).
+  (forall y, In y (remove_first (is_user_at p old) (g_blocks g)) -> agree (a_mem (st_a st)) (a_mem a') y) /\
+  (forall i, i < old -> a_mem a' (fst p) (snd p + i) = a_mem (st_a st) (fst p) (snd p + i)).
 Proof.
   intros I Hfind Hgrow Efr Hfi Hlast Hpush Hd a'. pose proof I as [G _ _].
   destruct (find_is_user _ _ _ _ Hfind) as (Hb & Hn & Hl & Hs).
@@ -906,10 +921,13 @@ Proof.
     rewrite Hyf, frame_at_top in Y1. inversion Y1; subst fry. repeat split; auto; lia. }
   assert (Hbfi : b_fi b = length rest) by (unfold b_fi; rewrite Hl; assumption).
   destruct (Hblk _ Hb Hbfi) as (B2 & B3 & B4 & B5 & B6).
-  unfold b_off, b_end in B2, B3, B4, B5, B6. rewrite Hl in B2, B3, B4, B5, B6. rewrite Hs in B4, B5, B6.
+  unfold b_off, b_end in B2, B3, B4, B5, B6. rewrite Hl in B2, B3, B4, B5, B6.
   apply push_some in Hpush. simpl in Hpush. destruct Hpush as (_ & Ps & Pl & Pfit & _).
   assert (Hb1 : bump c (f_size fr) (snd p + old) = f_len fr).
   { unfold bump. rewrite Hlast. destruct (N.ltb_spec (f_size fr) (f_len fr)); [lia|reflexivity]. }
+  (* the part named and the whole block round to the same boundary *)
+  assert (Hb1' : bump c (f_size fr) (snd p + b_size b) = f_len fr).
+  { pose proof (bump_mono c Hwf (f_size fr) (snd p + old) (snd p + b_size b)). lia. }
   assert (Hmono : f_len fr <= f_len fr').
   { rewrite Pl, <- Hb1. apply bump_mono; [assumption|lia]. }
   assert (Hfsz : fsz (fr :: rest) (length rest) = f_size fr) by (unfold fsz; rewrite frame_at_top; reflexivity).
@@ -926,26 +944,29 @@ Proof.
   { intros y Hy Hyf. pose proof (FOP_found _ _ _ _ (stacked_sym c _) Gst Hfind y Hy) as Hst.
     destruct (Hblk _ (In_remove_first _ _ _ Hy) Hyf) as (Y2 & Y3 & Y4 & Y5 & Y6).
     unfold stacked in Hst. rewrite Hbfi, Hfsz in Hst. specialize (Hst (eq_sym Hyf)).
-    unfold b_end, b_off in *. rewrite Hl, Hs in Hst. rewrite Hb1 in Hst.
+    unfold b_end, b_off in *. rewrite Hl in Hst. rewrite Hb1' in Hst.
     destruct Hst as [H1|[H1|[H0 [H1|H1]]]].
     - left. lia.
     - right; left. assumption.
-    - right; left. rewrite H1, N.add_0_r in Hlast.
+    - right; left. assert (Hold0 : old = 0) by lia. rewrite Hold0, N.add_0_r in Hlast.
       rewrite (align_off_id c Hwf _ B3) in Hlast. lia.
     - right; right. split; assumption. }
-  assert (Hag : forall y, In y (g_blocks g) -> agree (a_mem (st_a st)) (a_mem a') y).
-  { intros y Hy i Hi. unfold a'. simpl. apply mem_fill_out. simpl.
+  assert (Hag : forall y, In y (remove_first (is_user_at p old) (g_blocks g)) ->
+                agree (a_mem (st_a st)) (a_mem a') y).
+  { intros y Hy' i Hi. unfold a'. simpl. apply mem_fill_out. simpl.
     destruct (Nat.eq_dec (b_fi y) (length rest)) as [Hyf|Hyf]; [|left; congruence].
-    right; left. destruct (In_remove_first_or _ _ _ _ Hfind Hy) as [->|Hy'].
-    - unfold b_off. rewrite Hl. rewrite Hs in Hi. lia.
-    - destruct (Hblk _ Hy Hyf) as (Y2 & Y3 & Y4 & Y5 & Y6).
-      pose proof (bump_ge c Hwf _ _ Y6) as Hge. unfold b_end, b_off in *.
-      destruct (Hother _ Hy' Hyf) as [[H1 _]|[H1|[_ H1]]]; lia. }
-  split; [|assumption].
+    right; left. pose proof (In_remove_first _ _ _ Hy') as Hy.
+    destruct (Hblk _ Hy Hyf) as (Y2 & Y3 & Y4 & Y5 & Y6).
+    pose proof (bump_ge c Hwf _ _ Y6) as Hge. unfold b_end, b_off in *.
+    destruct (Hother _ Hy' Hyf) as [[H1 _]|[H1|[_ H1]]]; lia. }
+  assert (Hpre : forall i, i < old -> a_mem a' (fst p) (snd p + i) = a_mem (st_a st) (fst p) (snd p + i)).
+  { intros i Hi. unfold a'. simpl. apply mem_fill_out. simpl. right; left. lia. }
+  split; [|split; assumption].
   assert (I1 : inv c (mkState a' (st_scs st) (st_ncl st)) g).
   { apply inv_arena; simpl;
       [exact Hwf|exact I|reflexivity|rewrite Efr; apply frames_ext_top; assumption
-      |constructor; assumption|discriminate|lia|intros; apply Hag; assumption]. }
+      |constructor; assumption|discriminate|lia|].
+    intros y Hy Hnode. apply Hag. destruct (In_remove_first_or _ _ _ _ Hfind Hy) as [->|Hy']; [congruence|assumption]. }
   assert (I2 : inv c (mkState a' (st_scs st) (st_ncl st))
                  (mkG (remove_first (is_user_at p old) (g_blocks g)) (g_scopes g) (g_freed g))).
   { apply inv_remove; [assumption|assumption|]. intros z Hz. unfold is_user_at in Hz.
@@ -999,7 +1020,8 @@ Lemma inv_realloc st g k s p0 old new q a' :
   inv c st g -> api_okb g (Realloc k p0 old new) = true -> nth_error (st_scs st) k = Some s ->
   realloc c (st_a st) s p0 old new = Ok (q, a') ->
   inv c (mkState a' (st_scs st) (st_ncl st)) (gstep c g (Realloc k p0 old new) (EPtr q)) /\
-  (forall b, In b (g_blocks g) -> agree (a_mem (st_a st)) (a_mem a') b) /\
+  (forall b, In b (g_blocks g) -> fill_misses (Realloc k p0 old new) b ->
+     agree (a_mem (st_a st)) (a_mem a') b) /\
   (forall p q', p0 = Some p -> q = Some q' -> forall i, i < N.min old new ->
        a_mem a' (fst q') (snd q' + i) = a_mem (st_a st) (fst p) (snd p + i)) /\
   (forall p q', p0 = Some p -> q = Some q' -> q' <> p ->
@@ -1057,7 +1079,7 @@ Proof.
       assert (E1 : (snd q1 <=? snd q1 + i) = true) by (apply N.leb_le; lia).
       assert (E2 : (snd q1 + i <? snd q1 + old) = true) by (apply N.ltb_lt; lia).
       rewrite E1, E2. simpl. replace (snd q1 + i - snd q1) with i by lia.
-      specialize (A1 b Hb i). unfold b_fi, b_off in A1. rewrite Hl, Hs in A1. apply A1. lia. }
+      specialize (A1 b Hb i). unfold b_fi, b_off in A1. rewrite Hl in A1. apply A1. lia. }
     unfold realloc_fast.
     destruct (N.leb_spec new old) as [Hle|Hgt].
     + (* shrinking *)
@@ -1068,11 +1090,11 @@ Proof.
         apply N.ltb_lt in H. lia. }
       rewrite state_eta. split; [|split; [|split]].
       * simpl. apply inv_shrink with (b := b); try assumption. unfold lvl_of in *. lia.
-      * intros b0 _ i _. reflexivity.
+      * intros b0 _ _ i _. reflexivity.
       * intros p1 q' E1 E2 i _. inversion E1; inversion E2; subst. reflexivity.
       * intros p1 q' E1 E2 Hne. inversion E1; inversion E2; subst. congruence.
     + (* growing *)
-      destruct (validate (st_a st) s) eqn:Ev; simpl; [|discriminate].
+      rewrite (gv_true c Hwf). destruct (validate (st_a st) s) eqn:Ev; simpl; [|discriminate].
       assert (Hk0 : k = O).
       { rewrite Hfreed in G. apply (validated_innermost _ _ _ _ _ _ _ G Hk Ev). }
       destruct (a_frames (st_a st)) as [|fr rest] eqn:Efr; [discriminate|].
@@ -1080,13 +1102,15 @@ Proof.
       assert (Hfin : forall q1 a1, malloc c (st_a st) s new = Ok (q1, a1) ->
                 Ok (Some q1, mkArena (a_frames a1) (a_refs a1) (mem_copy (a_mem a1) q1 p old)) = Ok (q, a') ->
                 inv c (mkState a' (st_scs st) (st_ncl st)) (gstep c g (Realloc k (Some p) old new) (EPtr q)) /\
-                (forall b0, In b0 (g_blocks g) -> agree (a_mem (st_a st)) (a_mem a') b0) /\
+                (forall b0, In b0 (g_blocks g) -> fill_misses (Realloc k (Some p) old new) b0 ->
+                   agree (a_mem (st_a st)) (a_mem a') b0) /\
                 (forall p1 q', Some p = Some p1 -> q = Some q' -> forall i, i < N.min old new ->
                    a_mem a' (fst q') (snd q' + i) = a_mem (st_a st) (fst p1) (snd p1 + i)) /\
                 (forall p1 q', Some p = Some p1 -> q = Some q' -> q' <> p1 ->
                    Forall (disjoint (mkB q' new (lvl_of g k) false)) (g_blocks g))).
       { intros q1 a1 Hm H. inversion H; subst q a'; clear H.
-        destruct (Hslow2 _ _ Hm Hgt) as (J1 & J2 & J3 & J4). split; [exact J1|]. split; [exact J2|].
+        destruct (Hslow2 _ _ Hm Hgt) as (J1 & J2 & J3 & J4). split; [exact J1|].
+        split; [intros b0 Hb0 _; apply J2; assumption|].
         split.
         - intros p1 q' E1 E2 i Hi. inversion E1; inversion E2; subst. simpl. apply J3. assumption.
         - intros p1 q' E1 E2 _. inversion E2; subst. exact J4. }
@@ -1095,12 +1119,19 @@ Proof.
         apply Nat.eqb_eq in L1. apply N.eqb_eq in L2.
         destruct (push c (mkFrame (f_size fr) (snd p)) new) as [[x fr']|] eqn:Epush.
         -- intros H; inversion H; subst q a'; clear H.
-           destruct (inv_grow _ _ _ _ _ _ _ _ _ _ I Ef Hgt Efr L1 L2 Epush Hd) as [J1 J2].
+           destruct (inv_grow _ _ _ _ _ _ _ _ _ _ I Ef Hgt Efr L1 L2 Epush Hd) as (J1 & J2 & J3).
            subst k. unfold lvl_of. simpl. rewrite Nat.sub_0_r.
-           split; [exact J1|]. split; [exact J2|]. split.
+           split; [exact J1|]. split.
+           { (* every block but the one named keeps its bytes; the one named too when it was
+                named with its true size *)
+             intros b0 Hb0 Hmiss. simpl in Hmiss.
+             destruct (In_remove_first_or _ _ _ _ Ef Hb0) as [->|Hb0']; [|apply J2; assumption].
+             destruct Hmiss as [Hmiss|Hmiss].
+             - apply find_some in Ef. destruct Ef as [_ Ef]. congruence.
+             - intros i Hi. unfold b_fi, b_off. rewrite Hl. apply J3. lia. }
+           split.
            ++ intros p1 q' E1 E2 i Hi. injection E1 as <-. injection E2 as <-.
-              rewrite N.min_l in Hi by lia.
-              specialize (J2 b Hb i). unfold b_fi, b_off in J2. rewrite Hl, Hs in J2. apply J2. lia.
+              rewrite N.min_l in Hi by lia. apply J3. assumption.
            ++ intros p1 q' E1 E2 Hne. injection E1 as <-. injection E2 as <-. congruence.
         -- destruct (malloc c (st_a st) s new) as [[q1 a1]| | |] eqn:Em; try discriminate.
            apply (Hfin q1 a1 eq_refl).
@@ -1112,7 +1143,7 @@ Proof.
     intros H; inversion H; subst q a'; clear H.
     assert (Ig : inv c st (mkG (g_blocks g) (g_scopes g) (g_freed g))) by (destruct g; exact I).
     destruct (Hslow _ q1 a1 Hfreed Ig eq_refl (a_mem a1)) as (_ & J1 & J2); [intros; reflexivity|].
-    rewrite arena_eta in J1. split; [exact J1|]. split; [exact J2|].
+    rewrite arena_eta in J1. split; [exact J1|]. split; [intros b0 Hb0 _; apply J2; assumption|].
     split; intros p q' E; discriminate.
 Qed.
 
@@ -1213,7 +1244,7 @@ Proof.
     destruct (realloc c (st_a st) s p0 old new) as [[q a']| | |] eqn:Er; try discriminate.
     intros H; inversion H; subst; clear H.
     destruct (inv_realloc _ _ _ _ _ _ _ _ _ I Hapi Hk Er) as (J1 & J2 & _ & _).
-    split; [exact J1|]. intros b Hb _. simpl. apply J2. assumption.
+    split; [exact J1|]. intros b Hb Hmiss. simpl. apply J2; assumption.
   - (* Strndup *)
     unfold with_scope. destruct (nth_error (st_scs st) k) as [s|] eqn:Hk; [|discriminate].
     unfold lift_alloc, alloc_str. destruct (SIZE_LIMIT <=? N.of_nat (length data) + 1); [discriminate|].
